@@ -1,4 +1,5 @@
 import Modbus.Model.Registers
+import Modbus.Model.Builder
 /-
   C13 — Reading values out of a response never changes it.
 
@@ -56,5 +57,141 @@ example :
     (runSeq r [(.str 4, 0), (.str 4, 0), (.u16, 1)]) =
       ([.ok (.str [0x42, 0x41, 0x44, 0x43]), .ok (.str [0x42, 0x41, 0x44, 0x43]), .ok (.u 16 0x4344)],
        ⟨[0x41, 0x42, 0x43, 0x44], []⟩) := by decide
+
+/-! ### `ExtractFields`: the fields of one request are decoded independently of each other
+
+`extractLoop` (the model of `BuilderRequest.extractRegisterFields`) threads the payload each `Field.ExtractFrom` leaves
+behind into the next one. Because no accessor writes, every field's result is the result of extracting that field
+ALONE from the untouched response, whatever came before it - for every payload (also truncated ones), every list of
+fields (overlapping, repeated, unsorted, invalid) and both error modes. -/
+
+/-- one `Field.ExtractFrom` leaves the payload as it was -/
+theorem extractFrom_preserves (f : Field) (r : Registers) : (f.extractFrom r).2 = r.data := by
+  unfold Field.extractFrom
+  cases f.acc <;> rfl
+
+/-- the payload after extracting a whole list of fields one after the other -/
+def payloadAfter (r : Registers) (fs : List Field) : Slice :=
+  fs.foldl (fun d f => (f.extractFrom { r with data := d }).2) r.data
+
+theorem payloadAfter_eq (r : Registers) (fs : List Field) : payloadAfter r fs = r.data := by
+  unfold payloadAfter
+  generalize r.data = d
+  induction fs generalizing d with
+  | nil => rfl
+  | cons f rest ih =>
+    rw [List.foldl_cons, extractFrom_preserves]
+    exact ih d
+
+/-- the loop of `ExtractFields` driven by "this field alone on the untouched response" -/
+def soloLoop (lenient : Bool) (r : Registers) : List Field → List (Field × PRes Val) → Bool → Extracted
+  | [], acc, had => if had then .some_ acc else .all acc
+  | f :: rest, acc, had =>
+    match (f.extractFrom r).1 with
+    | .ok v => soloLoop lenient r rest (acc ++ [(f, .ok v)]) had
+    | .err e => if !lenient then .failed else soloLoop lenient r rest (acc ++ [(f, .err e)]) true
+    | .panic => .panicked
+
+/-- `ExtractFields` = every field on its own, for every response and every field list -/
+theorem extract_solo (lenient : Bool) (r : Registers) :
+    ∀ (fs : List Field) (acc : List (Field × PRes Val)) (had : Bool),
+      extractLoop lenient r fs acc had = soloLoop lenient r fs acc had := by
+  intro fs
+  induction fs with
+  | nil => intro acc had; rfl
+  | cons f rest ih =>
+    intro acc had
+    unfold extractLoop soloLoop
+    have hd : (f.extractFrom r).2 = r.data := extractFrom_preserves f r
+    have hr : ({ r with data := (f.extractFrom r).2 } : Registers) = r := by rw [hd]
+    cases hres : (f.extractFrom r).1 with
+    | ok v => simp only [hres, hr]; exact ih _ _
+    | err e =>
+      simp only [hres, hr]
+      cases lenient with
+      | false => rfl
+      | true => simp only [Bool.not_true, Bool.false_eq_true, if_false]; exact ih _ _
+    | panic => simp only [hres]
+
+/-- the values a lenient `ExtractFields` reports (none when it panicked) -/
+def valuesOf : Extracted → Option (List (Field × PRes Val))
+  | .all vs => some vs
+  | .some_ vs => some vs
+  | _ => none
+
+/-- lenient mode: the reported list is, in order, every field with its own solo result -/
+theorem lenient_values (r : Registers) :
+    ∀ (fs : List Field) (acc : List (Field × PRes Val)) (had : Bool), (∀ f ∈ fs, (f.extractFrom r).1 ≠ .panic) →
+      valuesOf (extractLoop true r fs acc had) = some (acc ++ fs.map fun f => (f, (f.extractFrom r).1)) := by
+  intro fs
+  induction fs with
+  | nil => intro acc had _; cases had <;> simp [extractLoop, valuesOf]
+  | cons f rest ih =>
+    intro acc had hnp
+    rw [extract_solo]
+    unfold soloLoop
+    cases hres : (f.extractFrom r).1 with
+    | panic => exact absurd hres (hnp f (by simp))
+    | err e =>
+      simp only [Bool.not_true, Bool.false_eq_true, if_false]
+      rw [← extract_solo, ih _ _ (fun g hg => hnp g (by simp [hg]))]
+      simp [hres]
+    | ok v =>
+      simp only []
+      rw [← extract_solo, ih _ _ (fun g hg => hnp g (by simp [hg]))]
+      simp [hres]
+
+/-- the error flag of a lenient `ExtractFields`: set exactly when it was set before or some field failed
+(not only the last one, and a failure never leaks into the fields after it) -/
+theorem lenient_flag (r : Registers) :
+    ∀ (fs : List Field) (acc : List (Field × PRes Val)) (had : Bool), (∀ f ∈ fs, (f.extractFrom r).1 ≠ .panic) →
+      ((∃ vs, extractLoop true r fs acc had = .some_ vs) ↔
+        (had = true ∨ ∃ f ∈ fs, ∃ e, (f.extractFrom r).1 = .err e)) := by
+  intro fs
+  induction fs with
+  | nil => intro acc had _; cases had <;> simp [extractLoop]
+  | cons f rest ih =>
+    intro acc had hnp
+    have hrest : ∀ g ∈ rest, (g.extractFrom r).1 ≠ .panic := fun g hg => hnp g (by simp [hg])
+    rw [extract_solo]
+    unfold soloLoop
+    cases hres : (f.extractFrom r).1 with
+    | panic => exact absurd hres (hnp f (by simp))
+    | err e =>
+      simp only [Bool.not_true, Bool.false_eq_true, if_false]
+      rw [← extract_solo, ih _ _ hrest]
+      simp only [true_or, true_iff]
+      exact Or.inr ⟨f, by simp, e, hres⟩
+    | ok v =>
+      simp only []
+      rw [← extract_solo, ih _ _ hrest]
+      constructor
+      · rintro (h | ⟨g, hg, e, hge⟩)
+        · exact Or.inl h
+        · exact Or.inr ⟨g, by simp [hg], e, hge⟩
+      · rintro (h | ⟨g, hg, e, hge⟩)
+        · exact Or.inl h
+        · simp only [List.mem_cons] at hg
+          rcases hg with rfl | hg
+          · rw [hres] at hge; cases hge
+          · exact Or.inr ⟨g, hg, e, hge⟩
+
+/-- extracting the fields in a different order reports the same (field, result) pairs, permuted -/
+theorem lenient_reorder (r : Registers) (fs fs' : List Field) (h : fs.Perm fs')
+    (hnp : ∀ f ∈ fs, (f.extractFrom r).1 ≠ .panic) :
+    ∃ vs vs', valuesOf (extractLoop true r fs [] false) = some vs ∧
+      valuesOf (extractLoop true r fs' [] false) = some vs' ∧ vs.Perm vs' := by
+  refine ⟨_, _, lenient_values r fs [] false hnp,
+    lenient_values r fs' [] false (fun f hf => hnp f (h.mem_iff.mpr hf)), ?_⟩
+  simp only [List.nil_append]
+  exact h.map _
+
+/-- non-vacuity: an unreachable field first, a good one after it (the order no unit test uses) -/
+example :
+    let r : Registers := { order := 9, start := 10, end_ := 12, data := ⟨[0x12, 0x34, 0x56, 0x78], []⟩ }
+    let bad : Field := { name := "b", server := "s", unit := 1, addr := 40, type := 5, bit := 0, fromHigh := false, length := 0, order := 0 }
+    let good : Field := { name := "g", server := "s", unit := 1, addr := 11, type := 5, bit := 0, fromHigh := false, length := 0, order := 0 }
+    valuesOf (extractLoop true r [bad, good] [] false) = some [(bad, .err .plain), (good, .ok (.u 16 0x5678))] := by
+  decide
 
 end Modbus.Properties.C13
